@@ -357,3 +357,29 @@ Proof.
                 (round3_retry_keeps_first RND rk gc ec dc ev)).
 Qed.
 Print Assumptions C18_rounds_are_functions.
+
+(* ---- C18_history_decodes_own_value.  Op histories over a store of returned
+   byte strings (a process keeping several sessions alive: HEnc v appends
+   Encode v to the store, HDec j decodes slot j): for EVERY history of
+   well-formed values, every curve, every decompression function under which
+   the Round2 values are well-formed, each HDec j yields exactly the j-th
+   encoded value — regardless of what was encoded afterwards.  In the pure
+   model this holds by construction (a stored byte string cannot change); it
+   is recorded because the implementation can violate it through aliasing (an
+   encoder returning a slice of a pooled buffer that the next call
+   overwrites).  The harness runs such histories on the Go encoders holding
+   the returned slices uncopied: run_c18 kind 7 prints the decoded values per
+   HDec, and they must equal the implementation's (correspondence), and each
+   held slice must stay equal to a copy taken when it was returned (oracle
+   c18:<Encoder>:result-aliases-shared-buffer). *)
+Theorem C18_history_decodes_own_value : forall decompress c ops vals,
+  Forall (wf_value decompress c) vals -> Forall (hop_wf decompress c) ops ->
+  run_history decompress c (map (stored c) vals) ops = history_spec vals ops.
+Proof. exact history_decodes_own_value. Qed.
+Print Assumptions C18_history_decodes_own_value.
+
+Theorem C18_later_encodes_do_not_matter : forall decompress c vals more j v,
+  Forall (wf_value decompress c) vals -> Forall (wf_value decompress c) more -> nth_error vals j = Some v ->
+  run_history decompress c (map (stored c) vals) (map HEnc more ++ [HDec j]) = [Ok v].
+Proof. exact later_encodes_do_not_matter. Qed.
+Print Assumptions C18_later_encodes_do_not_matter.
